@@ -219,6 +219,17 @@ CHECKS = {
         "Reverse-map mismatches on kinds never produced nor emitted (bvsmod, repeat, n-ary distinct) are reported as latent in the evidence, not as violations.",
         "DESIGN.md §2 C09",
     ),
+    "C24": (
+        "model_checking",
+        "explicit-state BFS over expressions (E1) whose variables carry strided-interval annotations, one traversal per interval pair; concretisation-containment oracle over all admissible assignments; local-soundness blame analysis",
+        "For every ordered pair of an interval alphabet (wrapping, strided, constant, TOP forms) at widths 1-3 "
+        "(thorough 1-4, depth 2): every distinct AST converted by backends.vsa.convert must contain every value / truth "
+        "value the expression takes with x, y inside their intervals; SolverVSA and SolverHybrid(exact=False) min / max "
+        "/ eval / solution on depth-1 states against the same sets.",
+        "Failures whose cause is an interval transfer function that is locally unsound on its abstract operands are C21's "
+        "(counted as excused); division by a possibly-zero divisor is skipped; free Bool variables are unsupported by the VSA backend (counted).",
+        "DESIGN.md §2 C24",
+    ),
 }
 
 NOT_YET = "check not built yet in this session (planned; see DESIGN.md §2)"
